@@ -3155,11 +3155,20 @@ theorem propOutNames_sub (fields : List QField) : ∀ x ∈ propOutNames fields,
       simp only [outNamesFields_edge, List.mem_append]
       exact Or.inr (ih x hx)
 
-/-- The tags the edges among `fields` can add to an assignment. -/
+/-- The tags an edge can add to the assignment it extends. -/
+def edgeTagDefs (k : Kind) (c : QNode) : List Name :=
+  match k with
+  | .fold _ => kindTagDefs k
+  | _ => tagDefs c
+
+theorem tagDefsFields_edge (nm : Name) (ps : Params) (k : Kind) (c : QNode) (rest : List QField) :
+    tagDefsFields (.edge nm ps k c :: rest) = edgeTagDefs k c ++ tagDefsFields rest := by
+  cases k <;> simp [tagDefsFields, edgeTagDefs]
+
 theorem edge_tagDefs_sub (nm : Name) (ps : Params) (k : Kind) (c : QNode) (rest : List QField) :
-    (∀ x ∈ (match k with | .fold _ => kindTagDefs k | _ => tagDefs c), x ∈ tagDefsFields (.edge nm ps k c :: rest)) ∧
+    (∀ x ∈ edgeTagDefs k c, x ∈ tagDefsFields (.edge nm ps k c :: rest)) ∧
       (∀ x ∈ tagDefsFields rest, x ∈ tagDefsFields (.edge nm ps k c :: rest)) := by
-  constructor <;> intro x hx <;> simp only [tagDefsFields, List.mem_append]
+  constructor <;> intro x hx <;> simp only [tagDefsFields_edge, List.mem_append]
   · exact Or.inl hx
   · exact Or.inr hx
 
@@ -3288,7 +3297,7 @@ theorem foldFinish_frame (env : SpecEnv) (v : Option VertexId) (fds : List FDir)
 theorem evalEdge_frame_of {env : SpecEnv} {fuel : Nat} (ih : NodeFrame env fuel) (owners : List Name)
     (nm : Name) (ps : Params) (k : Kind) (c : QNode) (v : Option VertexId) (a b : Asg)
     (hU : Agree (kindTagUses k ++ tagUses c) a b) :
-    FrameOK (match k with | .fold _ => kindTagDefs k | _ => tagDefs c) (kindOutNames k ++ outNames c) a b
+    FrameOK (edgeTagDefs k c) (kindOutNames k ++ outNames c) a b
       (evalEdge env fuel owners nm ps k c v a) (evalEdge env fuel owners nm ps k c v b) := by
   have hUc : Agree (tagUses c) a b := hU.mono (fun n hn => List.mem_append.mpr (Or.inr hn))
   have hchild : ∀ v, FrameOK (tagDefs c) (kindOutNames k ++ outNames c) a b
@@ -3311,7 +3320,7 @@ theorem evalEdge_frame_of {env : SpecEnv} {fuel : Nat} (ih : NodeFrame env fuel)
     | none => exact hchild none
     | some x => exact FrameOK.ofFlatMapR _ _ _ (fun n _ => hchild (some n))
   | fold fds =>
-    simp only [evalEdge_fold, kindTagDefs, kindOutNames]
+    simp only [evalEdge_fold, kindTagDefs, kindOutNames, edgeTagDefs]
     cases v with
     | none =>
       intro La Lb hX hY
@@ -3404,13 +3413,11 @@ theorem evalFields_frame_of {env : SpecEnv} {fuel : Nat} (ih : NodeFrame env fue
               (hU.mono (fun n hn => by
                 simp only [tagUsesFields, List.mem_append] at hn ⊢
                 exact Or.inl hn)).ext δ
-            refine (evalEdge_frame_of ih owners nm ps k c v _ _ hUe).mono ?_ ?_
-            · intro x hx
-              exact hT x ((edge_tagDefs_sub nm ps k c rest).1 x hx)
-            · intro x hx
-              exact hO x (by
+            have hfr := evalEdge_frame_of ih owners nm ps k c v _ _ hUe
+            exact hfr.mono (fun x hx => hT x ((edge_tagDefs_sub nm ps k c rest).1 x hx))
+              (fun x hx => hO x (by
                 simp only [outNamesFields_edge, List.mem_append] at hx ⊢
-                exact Or.inl hx)
+                exact Or.inl hx))
           obtain ⟨Δ', e1, e2, b1⟩ := FrameOK.ofFlatMapR_ext
             (fun a' => evalEdge env fuel owners nm ps k c v a') δs hδ hedge Xa Xb hxa hxb
           subst e1; subst e2
